@@ -151,7 +151,11 @@ def run_job(job):
                 case["h"] = job["h"]; case["module"] = job["module"]
                 v = rc.run(case)
                 if "error" not in v and not v["ok"]:
-                    kn = [k for k in (mod.kf_match(case) if hasattr(mod, "kf_match") else []) if k in kf_active]
+                    try:
+                        matched = mod.kf_match(case) if hasattr(mod, "kf_match") else []
+                    except Exception:
+                        matched = []          # a case of another harness of the module: no known-finding predicate describes it
+                    kn = [k for k in matched if k in kf_active]
                     res["violations"].append(dict(case=case, got=v["got"], exp=v["exp"], how="path-witness-replay (solver query undecided)",
                                                   path=E.path_descr(), known=kn[0] if kn else None))
                     if not kn:
@@ -170,7 +174,11 @@ def run_job(job):
                 res["inconclusive"].append(dict(reason="replay-error", detail=v["error"][-600:], case=case))
                 return {"stop": True}
             if not v["ok"]:
-                kn = [k for k in (mod.kf_match(case) if hasattr(mod, "kf_match") else []) if k in kf_active]
+                try:
+                    matched = mod.kf_match(case) if hasattr(mod, "kf_match") else []
+                except Exception:
+                    matched = []          # a case of another harness of the module: no known-finding predicate describes it
+                kn = [k for k in matched if k in kf_active]
                 res["violations"].append(dict(case=case, got=v["got"], exp=v["exp"], how="solver-counterexample", path=E.path_descr(),
                                               known=kn[0] if kn else None))
                 return {} if kn else {"stop": True}
@@ -192,7 +200,11 @@ def run_job(job):
                 res["inconclusive"].append(dict(reason="replay-error", detail=v["error"][-600:], case=case))
                 return {"stop": True}
             if not v["ok"]:
-                kn = [k for k in (mod.kf_match(case) if hasattr(mod, "kf_match") else []) if k in kf_active]
+                try:
+                    matched = mod.kf_match(case) if hasattr(mod, "kf_match") else []
+                except Exception:
+                    matched = []          # a case of another harness of the module: no known-finding predicate describes it
+                kn = [k for k in matched if k in kf_active]
                 res["violations"].append(dict(case=case, got=v["got"], exp=v["exp"], how="path-witness-replay", path=E.path_descr(),
                                               known=kn[0] if kn else None))
                 return {} if kn else {"stop": True}
